@@ -203,6 +203,7 @@ def s3_calculator(ctx):
                 seen.append((category, size, recording))
                 return ratio
             c = fake.cassette('w', key_prefix='s', read_only=False, sampling_calculator=calc)
+            env.anchor(c, '_random')
             sr = SpyRandom(1)
             sr.script = [draw]
             c._random = sr
@@ -242,6 +243,10 @@ def s3_calculator(ctx):
 def run(ctx):
     from playback.tape_recorder import TapeRecorder
     env.anchor(TapeRecorder, '_should_sample_active_recording')
+    from playback.tape_cassettes.in_memory.in_memory_tape_cassette import InMemoryTapeCassette
+    env.anchor(TapeRecorder(InMemoryTapeCassette()), '_random')      # the draw-logging RNG is installed under this name
+    from playback.tape_cassettes.s3.s3_tape_cassette import S3TapeCassette
+    env.anchor(S3TapeCassette, '_should_sample')
     table(ctx)
     histories(ctx)
     if ctx.shard == 0:
